@@ -36,6 +36,10 @@ def World.get? (w : World) (n : String) : Option MapObj :=
       match w.raw? pn with
       | none => none
       | some p =>
+        -- the descriptor is resolved against whatever map now bears the parent's name: it is
+        -- honoured only if its sentinel is still the value that map's storage holds in unset
+        -- cells of field `i` (always the case unless the parent's name was rebound meanwhile)
+        if m.sent != recField i (p.kind.blank p.sent) then none else
         match materializeView p pn i m.sent m.cache with
         | .ok v => some v
         | .error _ => none
@@ -334,13 +338,20 @@ def opSingle (w : World) (a : Args) : World × String :=
   withMap w a fun m =>
     match a.nat? "field", optVal a "sentinel" with
     | some i, some sent =>
+      -- single-field maps of BOOLEAN record fields are not modelled (record fields are kept as numbers)
+      if (match m.kind with | .recd fs _ => fs[i]? == some DT.bool | _ => false) then
+        (w, "bad-op:single-of-boolean-field") else
       if a.flag "copy" then
         (match apiGetSingleCopy m i sent with
          | .ok r => (w.put (a.getD "r" "tmp") r, "ok")
          | .error e => (w, errLine e))
       else
         (match singleSentinel m i sent with
-         | .ok (_, s) =>
+         | .ok (dt, s) =>
+           -- a view cannot re-sentinel the shared storage (ValueError after the `fix:` commit):
+           -- for a non-primary field the storage's unset cells hold the field's default sentinel
+           if (match m.kind with | .recd _ pr => i != pr | _ => false) && s != dt.defaultSentinel then
+             (w, errLine .value) else
            let n := a.pos.headD ""
            let r := a.getD "r" "tmp"
            -- register the view descriptor (storage is always taken from the parent)
@@ -476,6 +487,10 @@ def opFromhp (w : World) (a : Args) : World × String :=
 
 def opGenhp (w : World) (a : Args) : World × String :=
   withMap w a fun m =>
+    -- exporting a BOOLEAN record field goes through its single-field map: not modelled
+    if (match m.kind, a.nat? "key" with
+        | .recd fs _, some i => fs[i]? == some DT.bool
+        | _, _ => false) then (w, "bad-op:single-of-boolean-field") else
     let perm? : Option (Option (Array Nat × Array Nat)) :=
       if a.getD "nest" "1" == "1" then some none
       else match parseNats (a.getD "n2r" "_") with
